@@ -110,6 +110,14 @@ impl<'a> std::fmt::Debug for CharacterString<'a> {
     }
 }
 
+#[cfg(simple_dns_verif)]
+impl<'a> CharacterString<'a> {
+    /// verification hook: raw bytes of the string
+    pub fn verif_bytes(&self) -> &[u8] {
+        &self.data
+    }
+}
+
 #[cfg(test)]
 mod tests {
     use std::{
